@@ -749,20 +749,105 @@ func genCmd(rng *rand.Rand, api bool, unitPool []numTxt) gcmd {
 	}
 }
 
+// c19NumSrc renders a float64 as an evy expression that evaluates to exactly that value.
+func c19NumSrc(v float64) numTxt {
+	switch {
+	case v != v:
+		return numTxt{"(0/0)", v}
+	case math.IsInf(v, 1):
+		return numTxt{"(1/0)", v}
+	case math.IsInf(v, -1):
+		return numTxt{"(0-1/0)", v}
+	case v == 0 && math.Signbit(v):
+		return numTxt{"(0*(0-1))", v}
+	case v < 0:
+		return numTxt{"(0-" + strconv.FormatFloat(-v, 'f', -1, 64) + ")", v}
+	}
+	return numTxt{strconv.FormatFloat(v, 'f', -1, 64), v}
+}
+
+// genCoincident draws with geometry that is degenerate RELATIVE TO THE CURRENT
+// STATE: the target equals the cursor (cx, cy are the cursor in evy
+// coordinates), the previous line is repeated, or the shape has no extent.
+// The specification counts each of these calls as one shape.
+func genCoincident(rng *rand.Rand, cx, cy float64, prev *gcmd) gcmd {
+	x, y := c19NumSrc(cx), c19NumSrc(cy)
+	pt := func(a, b numTxt) (SX, string) { return Lst(Float(a.v), Float(b.v)), "[" + a.src + " " + b.src + "]" }
+	switch k := rng.Intn(12); k {
+	case 0, 1, 2: // line to the cursor: to where move / line / rect left it, or `line 0 0` first
+		return gcmd{Lst(Sym("line"), Float(x.v), Float(y.v)), "line " + x.src + " " + y.src}
+	case 3: // the previous line once more
+		if prev != nil && prev.sx.L[0].S == "line" {
+			return *prev
+		}
+		return gcmd{Lst(Sym("line"), Float(x.v), Float(y.v)), "line " + x.src + " " + y.src}
+	case 4: // rectangle without extent (in one or both directions)
+		w, h := c19Lit("0"), c19Lit("0")
+		switch rng.Intn(3) {
+		case 1:
+			w = genPos(rng)
+		case 2:
+			h = genPos(rng)
+		}
+		return gcmd{Lst(Sym("rect"), Float(w.v), Float(h.v)), "rect " + w.src + " " + h.src}
+	case 5:
+		return gcmd{Lst(Sym("circle"), Float(0)), "circle 0"}
+	case 6: // ellipse with zero radii, at the cursor
+		return gcmd{Lst(Sym("ellipse"), Float(x.v), Float(y.v), Float(0), Float(0), Float(0)), "ellipse " + x.src + " " + y.src + " 0"}
+	case 7: // ellipse flat in one direction
+		rx := genPos(rng)
+		return gcmd{Lst(Sym("ellipse"), Float(x.v), Float(y.v), Float(rx.v), Float(0), Float(0)), "ellipse " + x.src + " " + y.src + " " + rx.src + " 0"}
+	case 8: // polyline of a single point (the cursor)
+		p, src := pt(x, y)
+		return gcmd{Lst(Sym("poly"), Lst(p)), "poly " + src}
+	case 9: // polyline whose points coincide
+		a, b := c19GenNum(rng), c19GenNum(rng)
+		p, src := pt(a, b)
+		n := 2 + rng.Intn(2)
+		ps, srcs := []SX{}, []string{}
+		for i := 0; i < n; i++ {
+			ps, srcs = append(ps, p), append(srcs, src)
+		}
+		return gcmd{Lst(Sym("poly"), LstOf(ps)), "poly " + strings.Join(srcs, " ")}
+	case 10:
+		return gcmd{Lst(Sym("text"), Str("")), `text ""`}
+	default: // move to where the cursor already is, then nothing changes for the next call
+		return gcmd{Lst(Sym("move"), Float(x.v), Float(y.v)), "move " + x.src + " " + y.src}
+	}
+}
+
 // genHistory: with a unitPool one call (at a random place) is a gridn whose unit is drawn from the pool.
+// About one call in five is degenerate relative to the current state (genCoincident); the
+// generator follows the cursor (evy coordinates) for that.
 func genHistory(rng *rand.Rand, n int, api bool, unitPool []numTxt) []gcmd {
 	out := make([]gcmd, 0, n)
 	hangAt := -1
 	if unitPool != nil {
 		hangAt = rng.Intn(n)
 	}
+	cx, cy := 0.0, 0.0
 	for i := 0; i < n; i++ {
-		c := genCmd(rng, api, nil)
-		if i == hangAt {
+		var c gcmd
+		switch {
+		case i == hangAt:
 			c = genCmd(rng, api, unitPool)
 			for c.sx.L[0].S != "gridn" || c.evy == "grid" {
 				c = genCmd(rng, api, unitPool)
 			}
+		case rng.Intn(5) == 0:
+			var prev *gcmd
+			if i > 0 {
+				prev = &out[i-1]
+			}
+			c = genCoincident(rng, cx, cy, prev)
+		default:
+			c = genCmd(rng, api, nil)
+		}
+		switch a := c.sx.L; a[0].S {
+		case "move", "line":
+			cx, cy = sxF(a[1]), sxF(a[2])
+		case "rect":
+			cx, cy = cx+sxF(a[1]), cy+sxF(a[2])
 		}
 		out = append(out, c)
 	}
@@ -1272,7 +1357,8 @@ func runC19(cfg Config, r *Result) {
 	}
 	defer model.Close()
 	r.Rule = "random histories of graphics calls (move/line/rect/circle/clear/poly/ellipse/text/gridn/grid + width/color/colour/stroke/fill/dash/linecap/font; " +
-		"arguments from nice and degenerate pools: 0, -0, negative, NaN (0/0), +-Inf, 1e30, 1e-30; empty and markup-like strings) " +
+		"arguments from nice and degenerate pools: 0, -0, negative, NaN (0/0), +-Inf, 1e30, 1e-30; empty and markup-like strings; " +
+		"about one call in five degenerate relative to the current state: line to the cursor (after move/line/rect, or `line 0 0` first), a repeated line, rect/circle/ellipse without extent, single-point and coincident-point poly, text \"\") " +
 		"run on svg.GraphicsPlatform in-process (mode api), as evy programs through the built binary `evy run --svg-out` (mode binary), " +
 		"with a positive gridn unit around the proposed minimum 0.01 (1e-17, 5e-324, 1e-13, 1e-6, 0.0099999, 0.01, 0.0100001; thorough: 0.001) through the binary under a short timeout (mode gridn-tiny), " +
 		"and with a gridn unit <= 0 through the binary under timeout/ulimit (mode gridn-rejected: exit 1, document of the calls before it); non-trivial = at least 2 drawing calls with a style change after a drawing call; " +
